@@ -872,7 +872,30 @@ def rule_contfresh(ctx):
         yield ob(R, f, "beat.continuity:fresh-buffer:%s" % name, ok, "%s is allocated once per metrical variation" % name if ok else "%s is allocated once outside the loop over metrical variations and written inside it: marks left by one variation survive into the next" % name, node=allocs[name][0][0])
 
 
+def rule_impulsetrain(ctx):
+    """beat.p_score correlates two *indicator* trains: every beat sets its sample to 1, two beats in one sample still
+    give 1 (np.bincount / np.add.at would count them, and the normalised correlation could exceed 1)."""
+    R = "C04.IMPULSETRAIN"
+    f = ctx.program.func("beat.p_score", R)
+    s = ctx.S.get(f.qual)
+    cor = [c for c in s.calls() if c.callee == "np.correlate"]
+    need(len(cor) == 1 and len(cor[0].args) >= 2, R, "p_score: np.correlate call not found")
+    for i, a in enumerate(cor[0].args[:2]):
+        o = a
+        stores = []
+        for _ in range(20):
+            if o.op == "upd":
+                stores.append(o)
+                o = o.a[0]
+            else:
+                break
+        good = o.op == "call" and call_name(o) in ("np.zeros",) and len(stores) == 1 and stores[0].a[1] == "setitem" and tm.is_const(stores[0].a[3], 1)
+        yield ob(R, f, "beat.p_score:train@%d" % i, good, "impulse train %d is np.zeros(..) with train[beat samples] = 1" % i if good else "impulse train %d is %s: not a 0/1 indicator of the beat samples (coincident beats are counted, not marked)" % (i, tm.show(a, 3)), node=cor[0].node)
+
+
 RULES = [
+    ("C04.IMPULSETRAIN", 2, rule_impulsetrain),
+    ("C04.FLOORDIV", 1, common.rule_floordiv("C04.FLOORDIV", ("beat.py", "melody.py", "util.py", "segment.py", "multipitch.py", "transcription.py", "alignment.py", "pattern.py", "tempo.py", "onset.py", "key.py", "transcription_velocity.py"))),
     ("C04.STRICTFLAG", 10, common.shared("c07", "rule_strictflag", "C04.STRICTFLAG")),
     ("C04.NESTEDCONJ", 4, common.shared("c07", "rule_nestedconj", "C04.NESTEDCONJ")),
     ("C04.ARIFORM", 1, common.shared("c16", "rule_ariform", "C04.ARIFORM")),
